@@ -316,6 +316,8 @@ impl Pattern {
     }
 
     fn matches<'a>(&self, forward_string: &'a str) -> Option<&'a str> {
+        #[cfg(sqruff_verif)]
+        verif::note("matches", self as *const Pattern as usize, forward_string);
         match self.kind {
             SearchPatternKind::String(template) => {
                 if forward_string.starts_with(template) {
@@ -344,6 +346,8 @@ impl Pattern {
     }
 
     fn search(&self, forward_string: &str) -> Option<Range<usize>> {
+        #[cfg(sqruff_verif)]
+        verif::note("search", self as *const Pattern as usize, forward_string);
         match &self.kind {
             SearchPatternKind::String(template) => forward_string
                 .find(template)
@@ -553,6 +557,8 @@ impl Lexer {
                 }
             }
 
+            #[cfg(sqruff_verif)]
+            verif::note("regex", 0, forward_string);
             let input =
                 regex_automata::Input::new(forward_string).anchored(regex_automata::Anchored::Yes);
 
@@ -814,6 +820,147 @@ fn iter_segments(
         }
     }
     result
+}
+
+/// Verification hooks (only with `--cfg sqruff_verif`): a thread-local log of
+/// the pattern queries the lexer makes (which pattern, on which sub-slice of the
+/// input) and read accessors for the matcher tables.
+#[cfg(sqruff_verif)]
+pub mod verif {
+    use std::cell::RefCell;
+
+    #[derive(Debug, Clone)]
+    pub struct Query {
+        /// "matches" | "search" | "regex"
+        pub site: &'static str,
+        /// address of the `Pattern` queried (0 for the combined regex)
+        pub pattern: usize,
+        /// address and length of the `&str` it was queried on
+        pub ptr: usize,
+        pub len: usize,
+    }
+
+    thread_local! {
+        static LOG: RefCell<Option<Vec<Query>>> = const { RefCell::new(None) };
+    }
+
+    pub fn start() {
+        LOG.with(|l| *l.borrow_mut() = Some(Vec::new()));
+    }
+
+    pub fn take() -> Vec<Query> {
+        LOG.with(|l| l.borrow_mut().take().unwrap_or_default())
+    }
+
+    pub(super) fn note(site: &'static str, pattern: usize, s: &str) {
+        LOG.with(|l| {
+            if let Some(log) = l.borrow_mut().as_mut() {
+                log.push(Query {
+                    site,
+                    pattern,
+                    ptr: s.as_ptr() as usize,
+                    len: s.len(),
+                });
+            }
+        });
+    }
+}
+
+#[cfg(sqruff_verif)]
+impl Pattern {
+    pub fn verif_addr(&self) -> usize {
+        self as *const Pattern as usize
+    }
+
+    pub fn verif_name(&self) -> &'static str {
+        self.name
+    }
+
+    pub fn verif_syntax_kind(&self) -> SyntaxKind {
+        self.syntax_kind
+    }
+
+    pub fn verif_variant(&self) -> &'static str {
+        match self.kind {
+            SearchPatternKind::String(_) => "string",
+            SearchPatternKind::Regex(_) => "regex",
+            SearchPatternKind::Native(_) => "native",
+            SearchPatternKind::Legacy(_, _) => "legacy",
+        }
+    }
+
+    pub fn verif_source(&self) -> Option<String> {
+        match &self.kind {
+            SearchPatternKind::String(s) | SearchPatternKind::Regex(s) => Some(s.to_string()),
+            SearchPatternKind::Native(_) => None,
+            SearchPatternKind::Legacy(_, r) => Some(r.as_str().to_string()),
+        }
+    }
+
+    /// `Pattern::matches`: length of the matched prefix.
+    pub fn verif_matches(&self, forward_string: &str) -> Option<usize> {
+        self.matches(forward_string).map(str::len)
+    }
+
+    pub fn verif_search(&self, forward_string: &str) -> Option<Range<usize>> {
+        self.search(forward_string)
+    }
+}
+
+#[cfg(sqruff_verif)]
+impl Matcher {
+    pub fn verif_pattern(&self) -> &Pattern {
+        &self.pattern
+    }
+
+    pub fn verif_subdivider(&self) -> Option<&Pattern> {
+        self.subdivider.as_ref()
+    }
+
+    pub fn verif_trim_post_subdivide(&self) -> Option<&Pattern> {
+        self.trim_post_subdivide.as_ref()
+    }
+}
+
+#[cfg(sqruff_verif)]
+impl Lexer {
+    pub fn verif_matchers(&self) -> &[Matcher] {
+        &self.matchers
+    }
+
+    pub fn verif_syntax_map(&self) -> &[(&'static str, SyntaxKind)] {
+        &self.syntax_map
+    }
+
+    pub fn verif_last_resort(&self) -> &Matcher {
+        &self.last_resort_lexer
+    }
+
+    pub fn verif_regex_pattern_len(&self) -> usize {
+        self.regex.pattern_len()
+    }
+
+    /// The combined anchored multi-regex at the head of `forward_string`:
+    /// (pattern index, start, end).
+    pub fn verif_regex_find(&self, forward_string: &str) -> Option<(usize, usize, usize)> {
+        let input =
+            regex_automata::Input::new(forward_string).anchored(regex_automata::Anchored::Yes);
+        self.regex
+            .find(input)
+            .map(|m| (m.pattern().as_usize(), m.start(), m.end()))
+    }
+
+    /// `lex_match`: (kind, text) of the elements and the unmatched remainder.
+    pub fn verif_lex_match<'b>(&self, s: &'b str) -> (Vec<(SyntaxKind, String)>, &'b str) {
+        let m = self.lex_match(s);
+        (
+            m.elements
+                .iter()
+                .map(|e| (e.syntax_kind, e.text.to_string()))
+                .collect(),
+            m.forward_string,
+        )
+    }
 }
 
 #[cfg(test)]
